@@ -4,94 +4,349 @@
    the shortest-form encodings of Unicode scalar values. *)
 From Coq Require Import List Bool Arith NArith ZArith Lia.
 From Coq.Strings Require Import Byte.
-From GI Require Import Lib.Bytes Lib.BytesFacts Gen.UnicodeConsts Lib.Utf8.
+From GI Require Import Lib.Bytes Lib.BytesFacts Gen.UnicodeConsts Lib.Utf8 Lib.Utf8Tables.
 Import ListNotations.
 Open Scope N_scope.
 
-Ltac b2p :=
-  repeat (rewrite ?orb_true_iff, ?andb_true_iff, ?N.leb_le, ?N.eqb_eq, ?N.ltb_lt, ?negb_true_iff,
-          ?orb_false_iff, ?andb_false_iff, ?N.leb_gt, ?N.eqb_neq, ?N.ltb_ge in * ).
+(* ------------------------------------------------------------------ *)
+(* which decoded runes are white space, in terms of the encoding bytes  *)
+
+Lemma space1 n0 : n0 < 128 -> space_points n0 = sp1 n0.
+Proof. intros H. apply Bool.eq_iff_eq_true. unfold space_points, sp1. b2p. lia. Qed.
+
+Lemma space2 n0 n1 :
+  194 <= n0 <= 223 -> 128 <= n1 <= 191 ->
+  space_points ((n0 - 192) * 64 + (n1 - 128)) = sp2 n0 n1.
+Proof. intros H0 H1. apply Bool.eq_iff_eq_true. unfold space_points, sp2. b2p. lia. Qed.
+
+Lemma space3 n0 n1 n2 :
+  224 <= n0 <= 239 -> 128 <= n1 <= 191 -> 128 <= n2 <= 191 -> (n0 = 224 -> 160 <= n1) ->
+  space_points ((n0 - 224) * 4096 + (n1 - 128) * 64 + (n2 - 128)) = sp3 n0 n1 n2.
+Proof. intros H0 H1 H2 H3. apply Bool.eq_iff_eq_true. unfold space_points, sp3. b2p. lia. Qed.
+
+Lemma space_big r : 12288 < r -> space_points r = false.
+Proof. intros H. apply Bool.not_true_iff_false. unfold space_points. b2p. lia. Qed.
+
+Lemma space_err : is_space_rune rune_error = false.
+Proof. reflexivity. Qed.
+
+Lemma sp1_lt n : sp1 n = true -> n < 128.
+Proof. unfold sp1. b2p. lia. Qed.
+Lemma sp2_inv n0 n1 : sp2 n0 n1 = true -> n0 = 194 /\ 128 <= n1 <= 191.
+Proof. unfold sp2. b2p. lia. Qed.
+Lemma sp3_inv n0 n1 n2 :
+  sp3 n0 n1 n2 = true -> 225 <= n0 <= 227 /\ 128 <= n1 <= 191 /\ 128 <= n2 <= 191.
+Proof. unfold sp3. b2p. lia. Qed.
+
+Lemma in_range_iff lo hi b : in_range lo hi b = true <-> lo <= bN b <= hi.
+Proof. unfold in_range. b2p. tauto. Qed.
+Lemma in_range_false lo hi b : in_range lo hi b = false <-> bN b < lo \/ hi < bN b.
+Proof. unfold in_range. b2p. tauto. Qed.
+Lemma cont_iff b : cont b = true <-> 128 <= bN b <= 191.
+Proof. apply in_range_iff. Qed.
+Lemma cont_false b : cont b = false <-> bN b < 128 \/ 191 < bN b.
+Proof. apply in_range_false. Qed.
+
+Lemma second3_true b c1 :
+  second3 b c1 = true ->
+  128 <= bN c1 <= 191 /\ (bN b = 224 -> 160 <= bN c1) /\ (bN b = 237 -> bN c1 <= 159).
+Proof.
+  unfold second3, cont.
+  destruct (bN b =? 224) eqn:E1; [|destruct (bN b =? 237) eqn:E2];
+    rewrite in_range_iff; b2p; lia.
+Qed.
+
+Lemma second3_plain b c1 : 225 <= bN b <= 227 -> second3 b c1 = cont c1.
+Proof.
+  intros H. unfold second3.
+  replace (bN b =? 224) with false by (symmetry; b2p; lia).
+  replace (bN b =? 237) with false by (symmetry; b2p; lia). reflexivity.
+Qed.
+
+Lemma second4_true b c1 :
+  second4 b c1 = true ->
+  128 <= bN c1 <= 191 /\ (bN b = 240 -> 144 <= bN c1) /\ (bN b = 244 -> bN c1 <= 143).
+Proof.
+  unfold second4, cont.
+  destruct (bN b =? 240) eqn:E1; [|destruct (bN b =? 244) eqn:E2];
+    rewrite in_range_iff; b2p; lia.
+Qed.
 
 (* ------------------------------------------------------------------ *)
-(* unicode.IsSpace: the regenerated tables denote this set of code points
-   (a changed table breaks this lemma) *)
+(* the byte tables of Lib/Bytes.v recognise exactly the encodings of    *)
+(* white-space runes, read forwards and backwards                       *)
 
-Definition space_points (r : N) : bool :=
-  ((9 <=? r) && (r <=? 13)) || (r =? 32) || (r =? 133) || (r =? 160) || (r =? 5760)
-  || ((8192 <=? r) && (r <=? 8202)) || (r =? 8232) || (r =? 8233) || (r =? 8239)
-  || (r =? 8287) || (r =? 12288).
+Definition space_width (d : bytes) : nat :=
+  match decode_rune d with
+  | Some (r, w) => if is_space_rune r then w else 0%nat
+  | None => 0%nat
+  end.
 
-Lemma stride_two lo hi st r :
-  hi = lo + st -> 0 < st ->
-  ((lo <=? r) && (r <=? hi) && ((r - lo) mod st =? 0)) = ((r =? lo) || (r =? hi)).
+Ltac sp_false t :=
+  replace t with false
+    by (symmetry; apply Bool.not_true_iff_false; unfold sp1, sp2, sp3; b2p; lia).
+Ltac kill_sp :=
+  repeat match goal with
+  | |- context [sp1 ?a] => sp_false (sp1 a)
+  | |- context [sp2 ?a ?b] => sp_false (sp2 a b)
+  | |- context [sp3 ?a ?b ?c] => sp_false (sp3 a b c)
+  end.
+Ltac hyps :=
+  repeat match goal with
+  | H : in_range _ _ _ = true |- _ => apply in_range_iff in H
+  | H : in_range _ _ _ = false |- _ => apply in_range_false in H
+  | H : cont _ = true |- _ => apply cont_iff in H
+  | H : cont _ = false |- _ => apply cont_false in H
+  | H : second3 _ _ = true |- _ => apply second3_true in H
+  | H : second4 _ _ = true |- _ => apply second4_true in H
+  | H : (_ <? _) = true |- _ => apply N.ltb_lt in H
+  | H : (_ <? _) = false |- _ => apply N.ltb_ge in H
+  | H : (_ && _) = true |- _ => apply andb_true_iff in H; destruct H
+  end.
+
+Lemma space_prefix_decode d : space_prefix d = space_width d.
 Proof.
-  intros -> Hst. apply Bool.eq_iff_eq_true. b2p. split.
-  - intros [[H1 H2] H3].
-    destruct (N.eq_dec r lo) as [|Hne]; [now left|right].
-    destruct (N.eq_dec r (lo + st)) as [|Hne2]; [assumption|exfalso].
-    rewrite N.mod_small in H3 by lia. lia.
-  - intros [->| ->].
-    + rewrite N.sub_diag, N.mod_0_l by lia. lia.
-    + replace (lo + st - lo) with st by lia. rewrite N.mod_same by lia. lia.
+  destruct d as [|b0 r]; [reflexivity|].
+  rewrite space_prefix_table. unfold sp_table, space_width, decode_rune, err1, rune_self.
+  destruct (bN b0 <? 128) eqn:E0.
+  { hyps. rewrite is_space_rune_points, space1 by assumption.
+    destruct (sp1 (bN b0)); [reflexivity|].
+    destruct r as [|c1 [|c2 r2]]; kill_sp; reflexivity. }
+  destruct (in_range 194 223 b0) eqn:E2.
+  { hyps. destruct r as [|c1 r1]; [rewrite space_err; kill_sp; reflexivity|].
+    destruct (cont c1) eqn:Ec1; hyps.
+    - rewrite is_space_rune_points, space2 by assumption.
+      destruct r1 as [|c2 r2]; kill_sp; reflexivity.
+    - rewrite space_err. destruct r1 as [|c2 r2]; kill_sp; reflexivity. }
+  destruct (in_range 224 239 b0) eqn:E3.
+  { hyps. destruct r as [|c1 [|c2 r2]]; try (rewrite space_err; kill_sp; reflexivity).
+    destruct (second3 b0 c1 && cont c2) eqn:Ec.
+    - hyps. rewrite is_space_rune_points, space3 by tauto. kill_sp. reflexivity.
+    - rewrite space_err. kill_sp.
+      destruct (sp3 (bN b0) (bN c1) (bN c2)) eqn:E; [|reflexivity].
+      apply sp3_inv in E. rewrite second3_plain in Ec by tauto.
+      apply andb_false_iff in Ec. destruct Ec as [Ec|Ec]; apply cont_false in Ec; lia. }
+  destruct (in_range 240 244 b0) eqn:E4.
+  { hyps. destruct r as [|c1 [|c2 [|c3 r3]]]; try (rewrite space_err; kill_sp; reflexivity).
+    destruct (second4 b0 c1 && cont c2 && cont c3) eqn:Ec.
+    - hyps. rewrite is_space_rune_points, space_big by lia. kill_sp. reflexivity.
+    - rewrite space_err. kill_sp. reflexivity. }
+  hyps. rewrite space_err. destruct r as [|c1 [|c2 r2]]; kill_sp; reflexivity.
 Qed.
 
-Lemma stride_one lo hi r :
-  ((lo <=? r) && (r <=? hi) && ((r - lo) mod 1 =? 0)) = ((lo <=? r) && (r <=? hi)).
-Proof. rewrite N.mod_1_r. cbn. now rewrite andb_true_r. Qed.
+Definition space_width_last (d : bytes) : nat :=
+  match decode_last_rune d with
+  | Some (r, w) => if is_space_rune r then w else 0%nat
+  | None => 0%nat
+  end.
 
-Lemma is_space_rune_points r : is_space_rune r = space_points r.
+Lemma decode_rune_width d r w : decode_rune d = Some (r, w) -> (1 <= w <= 4)%nat.
 Proof.
-  unfold is_space_rune, space_points, in_ranges, max_latin1, latin1_space, white_space_ranges.
-  cbn [existsb]. rewrite !stride_one, !(stride_two _ _ _ r) by (reflexivity || lia).
-  apply Bool.eq_iff_eq_true. rewrite !orb_false_r.
-  destruct (r <=? 255) eqn:E; b2p; lia.
+  unfold decode_rune, err1. destruct d as [|b0 rest]; [discriminate|].
+  repeat match goal with
+  | |- context [if ?c then _ else _] => destruct c
+  | |- context [match ?l with [] => _ | _ :: _ => _ end] => destruct l
+  end; intros H; inversion H; lia.
 Qed.
 
-Lemma rune_consts : rune_self = 128 /\ rune_error = 65533 /\ max_rune = 1114111.
-Proof. repeat split. Qed.
+Lemma last_rune_back_le q : (last_rune_back q <= length q)%nat.
+Proof.
+  unfold last_rune_back.
+  repeat match goal with
+  | |- context [if ?c then _ else _] => destruct c
+  | |- context [match ?l with [] => _ | _ :: _ => _ end] => destruct l
+  end; cbn [length]; lia.
+Qed.
+
+Lemma decode_last_rune_rev l0 q :
+  decode_last_rune (rev (l0 :: q)) =
+  if bN l0 <? rune_self then Some (bN l0, 1%nat) else
+  match decode_rune (rev (l0 :: firstn (last_rune_back q) q)) with
+  | Some (r, w) => if Nat.eqb w (S (last_rune_back q)) then Some (r, w) else err1
+  | None => err1
+  end.
+Proof.
+  unfold decode_last_rune. rewrite rev_involutive. cbv zeta.
+  pose proof (last_rune_back_le q) as Hk.
+  replace (skipn (length (rev (l0 :: q)) - S (last_rune_back q)) (rev (l0 :: q)))
+    with (rev (l0 :: firstn (last_rune_back q) q)); [reflexivity|].
+  rewrite skipn_rev. f_equal. rewrite rev_length. cbn [length].
+  replace (S (length q) - (S (length q) - S (last_rune_back q)))%nat
+    with (S (last_rune_back q)) by lia.
+  reflexivity.
+Qed.
+
+(* the width reported for the last rune, through the forward table *)
+Lemma final_width cand k :
+  match
+    match decode_rune cand with
+    | Some (r, w) => if Nat.eqb w (S k) then Some (r, w) else err1
+    | None => err1
+    end
+  with
+  | Some (r, w) => if is_space_rune r then w else 0%nat
+  | None => 0%nat
+  end = if Nat.eqb (space_width cand) (S k) then S k else 0%nat.
+Proof.
+  unfold space_width, err1. destruct (decode_rune cand) as [[r w]|] eqn:E.
+  - destruct (Nat.eqb w (S k)) eqn:Ew.
+    + apply Nat.eqb_eq in Ew. subst w. destruct (is_space_rune r); [now rewrite Nat.eqb_refl|reflexivity].
+    + rewrite space_err. destruct (is_space_rune r); [now rewrite Ew|reflexivity].
+  - rewrite space_err. reflexivity.
+Qed.
+
+Lemma rune_start_true b : rune_start b = true <-> bN b < 128 \/ 191 < bN b.
+Proof. unfold rune_start. rewrite negb_true_iff. apply in_range_false. Qed.
+Lemma rune_start_false b : rune_start b = false <-> 128 <= bN b <= 191.
+Proof. unfold rune_start. rewrite negb_false_iff. apply in_range_iff. Qed.
+
+Ltac sp_cases :=
+  repeat match goal with
+  | |- context [sp1 ?a] => let E := fresh "E" in destruct (sp1 a) eqn:E; [apply sp1_lt in E|]
+  | |- context [sp2 ?a ?b] => let E := fresh "E" in destruct (sp2 a b) eqn:E; [apply sp2_inv in E|]
+  | |- context [sp3 ?a ?b ?c] => let E := fresh "E" in destruct (sp3 a b c) eqn:E; [apply sp3_inv in E|]
+  end.
+Ltac finish := kill_sp; sp_cases; cbn [Nat.eqb]; first [reflexivity | exfalso; lia].
+
+Lemma space_suffix_decode d : space_suffix_rev' (rev d) = space_width_last d.
+Proof.
+  rewrite <- (rev_involutive d) at 2. destruct (rev d) as [|l0 q]; [reflexivity|].
+  rewrite space_suffix_table. unfold space_width_last. rewrite decode_last_rune_rev.
+  unfold rune_self. destruct (bN l0 <? 128) eqn:E0.
+  { hyps. rewrite is_space_rune_points, space1 by assumption. unfold sp_table_rev.
+    destruct (sp1 (bN l0)); [reflexivity|]. destruct q as [|b1 [|b2 q2]]; finish. }
+  hyps. rewrite final_width, <- space_prefix_decode.
+  unfold last_rune_back, sp_table_rev.
+  destruct q as [|b1 q1]; [cbn [firstn rev app]; rewrite space_prefix_table; unfold sp_table; finish|].
+  destruct (rune_start b1) eqn:S1;
+    [apply rune_start_true in S1; cbn [firstn rev app]; rewrite space_prefix_table; unfold sp_table;
+     destruct q1 as [|b2 q2]; finish|apply rune_start_false in S1].
+  destruct q1 as [|b2 q2]; [cbn [firstn rev app]; rewrite space_prefix_table; unfold sp_table; finish|].
+  destruct (rune_start b2) eqn:S2;
+    [apply rune_start_true in S2; cbn [firstn rev app]; rewrite space_prefix_table; unfold sp_table; finish
+    |apply rune_start_false in S2].
+  destruct q2 as [|b3 q3]; [cbn [firstn rev app]; rewrite space_prefix_table; unfold sp_table; finish|].
+  destruct (rune_start b3) eqn:S3;
+    [apply rune_start_true in S3; cbn [firstn rev app]; rewrite space_prefix_table; unfold sp_table; finish
+    |apply rune_start_false in S3].
+  destruct q3 as [|b4 q4]; cbn [firstn rev app]; rewrite space_prefix_table; unfold sp_table; finish.
+Qed.
 
 (* ------------------------------------------------------------------ *)
-(* the white-space byte table of Lib/Bytes.v, as a table over byte codes *)
+(* strings.TrimSpace                                                   *)
 
-Definition sp1 (n0 : N) : bool := ((9 <=? n0) && (n0 <=? 13)) || (n0 =? 32).
-Definition sp2 (n0 n1 : N) : bool := (n0 =? 194) && ((n1 =? 133) || (n1 =? 160)).
-Definition sp3 (n0 n1 n2 : N) : bool :=
-  ((n0 =? 225) && ((n1 =? 154) && (n2 =? 128)))
-  || ((n0 =? 226) && (((n1 =? 128) && (((128 <=? n2) && (n2 <=? 138)) || (n2 =? 168) || (n2 =? 169) || (n2 =? 175)))
-                      || ((n1 =? 129) && (n2 =? 159))))
-  || ((n0 =? 227) && ((n1 =? 128) && (n2 =? 128))).
-
-Definition sp_table (b0 : byte) (r : bytes) : nat :=
-  if sp1 (bN b0) then 1%nat else
-  match r with
-  | c1 :: r1 =>
-      if sp2 (bN b0) (bN c1) then 2%nat else
-      match r1 with
-      | c2 :: _ => if sp3 (bN b0) (bN c1) (bN c2) then 3%nat else 0%nat
-      | [] => 0%nat
-      end
-  | [] => 0%nat
-  end.
-
-(* read forwards: b0 is the first byte *)
-Lemma space_prefix_table b0 r : space_prefix (b0 :: r) = sp_table b0 r.
+Lemma decode_last_rune_width d r w : decode_last_rune d = Some (r, w) -> (1 <= w)%nat.
 Proof.
-  destruct r as [|c1 [|c2 r2]].
-  - destruct b0; reflexivity.
-  - destruct b0; try reflexivity; destruct c1; reflexivity.
-  - destruct b0; try reflexivity; destruct c1; try reflexivity; destruct c2; reflexivity.
+  unfold decode_last_rune, err1. destruct (rev d) as [|l0 q]; [discriminate|].
+  destruct (bN l0 <? rune_self); [intros H; inversion H; lia|]. cbv zeta.
+  destruct (decode_rune _) as [[r' w']|] eqn:E; [|intros H; inversion H; lia].
+  destruct (Nat.eqb w' _); intros H; inversion H; subst; [|lia].
+  apply decode_rune_width in E. lia.
 Qed.
 
-(* read backwards: l0 is the last byte, q the bytes in front of it, nearest first *)
-Definition sp_table_rev (l0 : byte) (q : bytes) : nat :=
-  if sp1 (bN l0) then 1%nat else
-  match q with
-  | b1 :: q1 =>
-      if sp2 (bN b1) (bN l0) then 2%nat else
-      match q1 with
-      | b2 :: _ => if sp3 (bN b2) (bN b1) (bN l0) then 3%nat else 0%nat
-      | [] => 0%nat
-      end
-  | [] => 0%nat
-  end.
+Lemma trim_left_fuel_eq f : forall d, trim_left_fuel f d = trim_left_runes_fuel f d.
+Proof.
+  induction f as [|f IH]; intros d; [reflexivity|].
+  cbn [trim_left_fuel trim_left_runes_fuel]. rewrite space_prefix_decode. unfold space_width.
+  destruct (decode_rune d) as [[r w]|] eqn:E; [|reflexivity].
+  destruct (is_space_rune r); [|reflexivity].
+  apply decode_rune_width in E. destruct w as [|w]; [lia|]. apply IH.
+Qed.
 
+(* TrimLeftFunc(d, unicode.IsSpace) *)
+Theorem trim_left_eq d : trim_left d = trim_left_runes d.
+Proof. apply trim_left_fuel_eq. Qed.
+
+Lemma trim_right_fuel_eq f : forall d,
+  rev (trim_right_rev_fuel f (rev d)) = trim_right_runes_fuel f d.
+Proof.
+  induction f as [|f IH]; intros d; [apply rev_involutive|].
+  cbn [trim_right_rev_fuel trim_right_runes_fuel]. rewrite space_suffix_decode.
+  unfold space_width_last.
+  destruct (decode_last_rune d) as [[r w]|] eqn:E; [|apply rev_involutive].
+  destruct (is_space_rune r); [|apply rev_involutive].
+  apply decode_last_rune_width in E. destruct w as [|w]; [lia|].
+  rewrite skipn_rev. apply IH.
+Qed.
+
+(* TrimRightFunc(d, unicode.IsSpace) *)
+Theorem trim_right_eq d : trim_right d = trim_right_runes d.
+Proof. apply trim_right_fuel_eq. Qed.
+
+(* strings.TrimSpace: the byte-table implementation of Lib/Bytes.v strips exactly the
+   white-space runes (unicode.IsSpace of the regenerated tables) at both ends *)
+Theorem trim_space_eq d : trim_space d = trim_space_runes d.
+Proof. unfold trim_space, trim_space_runes. now rewrite trim_left_eq, trim_right_eq. Qed.
+
+(* ------------------------------------------------------------------ *)
+(* utf8.Valid                                                          *)
+
+Lemma is_err1_wide r w : (2 <= w)%nat -> is_err1 (r, w) = false.
+Proof.
+  intros H. unfold is_err1. cbn [fst snd]. destruct w as [|[|w]]; try lia.
+  apply andb_false_r.
+Qed.
+
+Lemma utf8_valid_fuel_eq f : forall d, utf8_valid_fuel f d = runes_ok_fuel f d.
+Proof.
+  induction f as [|f IH]; intros d; [reflexivity|].
+  cbn [utf8_valid_fuel runes_ok_fuel]. destruct d as [|b r]; [reflexivity|].
+  unfold decode_rune, err1, rune_self. fold (second3 b) (second4 b).
+  destruct (bN b <? 128) eqn:E0.
+  { unfold is_err1. cbn [fst snd skipn]. apply N.ltb_lt in E0.
+    replace (bN b =? rune_error) with false by (symmetry; apply N.eqb_neq; unfold rune_error; lia).
+    apply IH. }
+  destruct (in_range 194 223 b).
+  { destruct r as [|c1 r']; [reflexivity|]. destruct (cont c1); [|reflexivity].
+    rewrite is_err1_wide by lia. cbn [snd skipn andb]. apply IH. }
+  destruct (in_range 224 239 b).
+  { destruct r as [|c1 [|c2 r']]; try reflexivity.
+    change (if bN b =? 224 then in_range 160 191 c1
+            else if bN b =? 237 then in_range 128 159 c1 else cont c1) with (second3 b c1).
+    destruct (second3 b c1 && cont c2); [|reflexivity].
+    rewrite is_err1_wide by lia. cbn [snd skipn andb]. apply IH. }
+  destruct (in_range 240 244 b); [|reflexivity].
+  destruct r as [|c1 [|c2 [|c3 r']]]; try reflexivity.
+  change (if bN b =? 240 then in_range 144 191 c1
+          else if bN b =? 244 then in_range 128 143 c1 else cont c1) with (second4 b c1).
+  destruct (second4 b c1 && cont c2 && cont c3); [|reflexivity].
+  rewrite is_err1_wide by lia. cbn [snd skipn andb]. apply IH.
+Qed.
+
+(* utf8.Valid: the DFA of Lib/Bytes.v accepts exactly the byte strings that decode
+   rune by rune without the error answer *)
+Theorem utf8_valid_eq d : utf8_valid d = runes_ok d.
+Proof. apply utf8_valid_fuel_eq. Qed.
+
+Lemma runes_ok_fuel_valid f : forall d, (length d <= f)%nat -> runes_ok_fuel f d = true -> valid_runes d.
+Proof.
+  induction f as [|f IH]; intros d Hl H.
+  - destruct d; [constructor|discriminate].
+  - cbn [runes_ok_fuel] in H. destruct (decode_rune d) as [[r w]|] eqn:E.
+    + destruct (is_err1 (r, w)) eqn:Ee; [discriminate|]. cbn [snd] in H.
+      apply (valid_rune d r w E Ee). apply IH; [|assumption].
+      assert (Hw := decode_rune_width d r w E). rewrite skipn_length.
+      destruct d; [discriminate|]. cbn [length] in *. lia.
+    + destruct d; [constructor|]. unfold decode_rune in E.
+      repeat match type of E with
+      | context [if ?c then _ else _] => destruct c
+      | context [match ?l with [] => _ | _ :: _ => _ end] => destruct l
+      end; discriminate.
+Qed.
+
+Lemma valid_runes_ok d : valid_runes d -> forall f, (length d <= f)%nat -> runes_ok_fuel f d = true.
+Proof.
+  induction 1 as [|d r w E Ee Hv IH]; intros f Hl.
+  - destruct f; reflexivity.
+  - assert (Hw := decode_rune_width d r w E).
+    destruct d as [|b d']; [discriminate|]. destruct f as [|f]; [cbn [length] in Hl; lia|].
+    cbn [runes_ok_fuel]. rewrite E, Ee. cbn [snd]. apply IH.
+    rewrite skipn_length. cbn [length] in *. lia.
+Qed.
+
+Theorem utf8_valid_iff d : utf8_valid d = true <-> valid_runes d.
+Proof.
+  rewrite utf8_valid_eq. unfold runes_ok. split.
+  - apply runes_ok_fuel_valid. lia.
+  - intros H. now apply valid_runes_ok.
+Qed.
